@@ -5,9 +5,26 @@ import random
 from . import core, session, ts004
 
 
-def twin_scenarios(rnd, quick, ffr=False):
+def big_loss_base(rnd, ffr=False):
+    """a delivery with many unknowns (matrix rows spanning several bytes), coded fragments arriving one by one"""
+    blk = 256
+    sz = rnd.choice([1, 2, 4, 8])
+    slot = session.DRO + 4096
+    n = rnd.randint(24, 64)
+    cap = session.max_l(slot, sz)
+    nlost = rnd.randint(9, min(n - 1, cap, 40))
+    img = ts004.make_image(rnd, n, sz)
+    lost = set(rnd.sample(range(1, n + 1), nlost))
+    seq = [i for i in range(1, n + 1) if i not in lost] + list(range(n + 1, n + 1 + nlost + 12))
+    s = session.Scn(4, slot, blk)
+    s.meta = dict(n=n, sz=sz, cap=cap, img=img, seq=seq, mode="big-loss", lost=sorted(lost), ffr=ffr)
+    s.meta["start_op"] = s.add("start %d %d" % (sz, n))
+    return s
+
+
+def twin_scenarios(rnd, quick, ffr=False, base=None, positions=None):
     scns = []
-    base = session.build_delivery(rnd, ffr=ffr, small=True, with_history=rnd.random() < 0.3)
+    base = base or session.build_delivery(rnd, ffr=ffr, small=True, with_history=rnd.random() < 0.3)
     me = base.meta
     if me["cap"] < 1:
         return []
@@ -33,7 +50,7 @@ def twin_scenarios(rnd, quick, ffr=False):
     ref = mk(set(), "ref")
     scns.append(ref)
     npos = len(seq) + 1
-    pos = list(range(npos)) if npos <= (10 if quick else 40) else sorted(set([0, 1, npos - 1] + rnd.sample(range(npos), 7 if quick else 30)))
+    pos = positions(npos) if positions else (list(range(npos)) if npos <= (10 if quick else 40) else sorted(set([0, 1, npos - 1] + rnd.sample(range(npos), 7 if quick else 30))))
     for p in pos:
         t = mk({p}, "twin"); t.meta["ref"] = ref; scns.append(t)
     if npos > 3:
@@ -74,6 +91,48 @@ def oracle_twin(s, out, refout):
     return msgs
 
 
+def evaluate(chk, scns, lines, impl, outs, variant, dist):
+    byid = {id(s): o for s, o in zip(scns, outs)}
+    nt = []
+    for s, l, raw, out in zip(scns, lines, impl, outs):
+        if len(out) != len(s.ops):
+            chk.failures.append(core.Failure("harness produced no / truncated result", "session", variant, l, raw, key="crash")); break
+        if s.meta["tag"] == "ref":
+            dist["reference_runs"] += 1
+            for msg in session.oracle_delivery(s, out):
+                chk.failures.append(core.Failure(msg, "session", variant, l, raw[:2000], key="c07"))
+            continue
+        refout = byid[id(s.meta["ref"])]
+        dist["single_reboot" if s.meta["tag"] == "twin" else "multi_reboot"] += 1
+        refheads = [refout[i][0] for i in s.meta["ref"].meta["seg_ops"]]
+        for k in s.meta["positions"]:
+            if k > 0 and k <= len(refheads) and refheads[k - 1].startswith("F"): dist["after_completion_before_mark"] += 1
+        for msg in oracle_twin(s, out, refout)[:2]:
+            chk.failures.append(core.Failure(msg, "session", variant, l, raw[:2000], key="c07"))
+        nt.append(l)
+        if len(chk.failures) > 10: break
+    return nt
+
+
+def search(chk, rnd):
+    """directed search for a concrete failing input (implementation + oracle only): many unknowns, reboot at every position
+       of parity processing"""
+    budget = 150 if chk.quick() else 1500
+    scns = []
+    for _ in range(budget):
+        b = big_loss_base(rnd)
+        first_coded = len([i for i in b.meta["seq"] if i <= b.meta["n"]])
+        scns += twin_scenarios(rnd, True, base=b, positions=lambda npos, fc=first_coded: [p for p in range(fc + 8, npos, 2)][:14])
+    fvh = core.build_harness("matrix")
+    lines = [s.line() for s in scns]
+    impl = core.run_stream(fvh, "session", lines)
+    outs = [session.parse_out(x) for x in impl]
+    dist = {"reference_runs": 0, "single_reboot": 0, "multi_reboot": 0, "after_completion_before_mark": 0, "after_refusal": 0}
+    evaluate(chk, scns, lines, impl, outs, "matrix", dist)
+    chk.cov["streams"]["directed-search(big-loss twins)"] = {"cases": len(lines), "found": len(chk.failures)}
+    chk.cov["evaluations"] += len(lines)
+
+
 def run(chk):
     chk.prove()
     rnd = random.Random(chk.seed)
@@ -81,27 +140,15 @@ def run(chk):
         scns = []
         for _ in range(rounds):
             scns += twin_scenarios(rnd, chk.quick(), ffr)
+        for _ in range(rounds // 8):
+            b = big_loss_base(rnd, ffr)          # more than 8 unknowns: matrix rows span several bytes
+            scns += twin_scenarios(rnd, chk.quick(), ffr, base=b)
         lines, impl, outs = session.run(chk, scns, variant=variant, stream="session-twin")
-        byid = {id(s): o for s, o in zip(scns, outs)}
-        nt, dist = [], {"reference_runs": 0, "single_reboot": 0, "multi_reboot": 0, "after_completion_before_mark": 0, "after_refusal": 0}
-        for s, l, raw, out in zip(scns, lines, impl, outs):
-            if len(out) != len(s.ops):
-                chk.failures.append(core.Failure("harness produced no / truncated result", "session", variant, l, raw, key="crash")); break
-            if s.meta["tag"] == "ref":
-                dist["reference_runs"] += 1
-                for msg in session.oracle_delivery(s, out):
-                    chk.failures.append(core.Failure(msg, "session", variant, l, raw[:2000], key="c07"))
-                continue
-            refout = byid[id(s.meta["ref"])]
-            dist["single_reboot" if s.meta["tag"] == "twin" else "multi_reboot"] += 1
-            refheads = [refout[i][0] for i in s.meta["ref"].meta["seg_ops"]]
-            for k in s.meta["positions"]:
-                if k > 0 and k <= len(refheads) and refheads[k - 1].startswith("F"): dist["after_completion_before_mark"] += 1
-            for msg in oracle_twin(s, out, refout)[:2]:
-                chk.failures.append(core.Failure(msg, "session", variant, l, raw[:2000], key="c07"))
-            nt.append(l)
-            if len(chk.failures) > 10: break
+        dist = {"reference_runs": 0, "single_reboot": 0, "multi_reboot": 0, "after_completion_before_mark": 0, "after_refusal": 0}
+        nt = evaluate(chk, scns, lines, impl, outs, variant, dist)
         chk.note_cases("session-twin[%s]" % variant, lines, nt, sample_n=1, dist=dist)
+    if chk.broken and not chk.failures:
+        search(chk, rnd)
     return chk.finish(level="proof",
         rule="session-twin: for each delivery scenario (geometries with capacity >= 1) one uninterrupted run and runs with drop + try_recover before fragment p for every p (all positions for short scripts, a sample incl. first / last / after completion otherwise), "
              "several positions at once and at every position; overflow-checked and release builds; non-trivial = every twin run; distinct by case text",
